@@ -99,6 +99,8 @@ def _format_content_disposition(
     #   Include a "filename" parameter when US-ASCII ([US-ASCII]) is
     #   sufficiently expressive.
     if value.isascii():
+        # NOTE: Escape the quoted-string special characters (RFC 9110, 5.6.4).
+        value = value.replace('\\', '\\\\').replace('"', '\\"')
         return '%s; filename="%s"' % (disposition_type, value)
 
     # NOTE(vytas): RFC 6266, Appendix D.
